@@ -284,7 +284,7 @@ def shrink_schedule(case):
         yield c
 
 
-TIERS = {"quick": {"runs": 1300, "wall_cap": 480}, "thorough": {"runs": 40000, "wall_cap": 3300}}
+TIERS = {"quick": {"runs": 2000, "wall_cap": 480}, "thorough": {"runs": 60000, "wall_cap": 3300}}
 RULE = ("one run = one generated world decorated with file links (beside their targets), directory links (siblings of their "
         "targets), dangling links and links to targets outside the code base, in which every reference (database file, "
         "directory, -I, -isystem, -include; ./ in include directives) uses a scheduler-chosen alias; compared with the same "
